@@ -102,6 +102,8 @@ where
         {
             let restored = T::read(&mut reader);
             *self.value.write() = Some(Arc::from(restored));
+            #[cfg(fontc_verif)]
+            verif_hooks::disk_read(&self.id);
         }
 
         // if we still don't have an answer just give up
@@ -112,6 +114,8 @@ where
     /// Read an item that might not exist
     pub fn try_get(&self) -> Option<Arc<T>> {
         self.acl.assert_read_access(&self.id);
+        #[cfg(fontc_verif)]
+        verif_hooks::read(&self.id, self.value.read().is_some());
         self.value.read().as_ref().cloned()
     }
 }
@@ -136,6 +140,8 @@ where
             .map(|arc| **arc == value)
             .unwrap_or(false)
         {
+            #[cfg(fontc_verif)]
+            verif_hooks::write(&self.id, false, self.persistent_storage.active());
             return;
         }
 
@@ -143,8 +149,14 @@ where
             let mut writer = self.persistent_storage.writer(&self.id);
             value.write(&mut writer);
         }
+        #[cfg(fontc_verif)]
+        if self.persistent_storage.active() && fontdrasil::verif::readback() {
+            verif_hooks::readback_eq(&self.id, &value, self.persistent_storage.reader(&self.id));
+        }
 
         *self.value.write() = Some(Arc::from(value));
+        #[cfg(fontc_verif)]
+        verif_hooks::write(&self.id, true, self.persistent_storage.active());
     }
 }
 
@@ -188,6 +200,8 @@ where
     /// Read an item that might not exist
     pub fn try_get(&self, id: &I) -> Option<Arc<T>> {
         self.acl.assert_read_access(id);
+        #[cfg(fontc_verif)]
+        verif_hooks::read(id, self.value.read().contains_key(id));
         self.value.read().get(id).cloned()
     }
 
@@ -198,6 +212,8 @@ where
             .iter()
             .map(|(id, v)| {
                 self.acl.assert_read_access(id);
+                #[cfg(fontc_verif)]
+                verif_hooks::read(id, true);
                 (id.clone(), v.clone())
             })
             .collect()
@@ -219,6 +235,8 @@ where
         {
             let restored = T::read(&mut reader);
             self.value.write().insert(id.clone(), Arc::from(restored));
+            #[cfg(fontc_verif)]
+            verif_hooks::disk_read(id);
         }
 
         // if we still don't have an answer just give up
@@ -241,8 +259,16 @@ where
             let mut writer = self.persistent_storage.writer(&key);
             value.write(&mut writer);
         }
+        #[cfg(fontc_verif)]
+        if self.persistent_storage.active() && fontdrasil::verif::readback() {
+            verif_hooks::readback_bytes(&key, &value, self.persistent_storage.reader(&key));
+        }
+        #[cfg(fontc_verif)]
+        let verif_key = key.clone();
 
         self.value.write().insert(key, Arc::from(value));
+        #[cfg(fontc_verif)]
+        verif_hooks::write(&verif_key, true, self.persistent_storage.active());
     }
 }
 
@@ -264,10 +290,119 @@ where
             .map(|arc| **arc == value)
             .unwrap_or(false)
         {
+            #[cfg(fontc_verif)]
+            verif_hooks::write(&key, false, self.persistent_storage.active());
             return;
         }
 
         self.set_unconditionally(value);
+    }
+}
+
+#[cfg(fontc_verif)]
+mod verif_hooks {
+    //! Event emission for context accesses; see `fontdrasil::verif`.
+    use super::Persistable;
+    use fontdrasil::{
+        orchestration::Identifier,
+        verif::{emit, enabled, jstr},
+    };
+    use std::io::Read;
+
+    fn item<I: Identifier>(id: &I) -> String {
+        format!(
+            "\"item\":{},\"disc\":{}",
+            jstr(&format!("{id:?}")),
+            jstr(id.discriminant())
+        )
+    }
+
+    pub(super) fn read<I: Identifier>(id: &I, present: bool) {
+        if enabled() {
+            emit("Read", &format!("{},\"present\":{present}", item(id)));
+        }
+    }
+
+    pub(super) fn disk_read<I: Identifier>(id: &I) {
+        if enabled() {
+            emit("DiskRead", &item(id));
+        }
+    }
+
+    pub(super) fn write<I: Identifier>(id: &I, changed: bool, persisted: bool) {
+        if enabled() {
+            emit(
+                "Write",
+                &format!(
+                    "{},\"changed\":{changed},\"persisted\":{}",
+                    item(id),
+                    changed && persisted
+                ),
+            );
+        }
+    }
+
+    fn restore<T: Persistable>(reader: Option<Box<dyn Read>>) -> Result<T, &'static str> {
+        let Some(mut reader) = reader else {
+            return Err("missing");
+        };
+        std::panic::catch_unwind(std::panic::AssertUnwindSafe(|| T::read(&mut reader)))
+            .map_err(|_| "panic")
+    }
+
+    /// Read back what was just persisted and compare by value.
+    pub(super) fn readback_eq<I: Identifier, T: Persistable + PartialEq>(
+        id: &I,
+        value: &T,
+        reader: Option<Box<dyn Read>>,
+    ) {
+        if !enabled() {
+            return;
+        }
+        let outcome = match restore::<T>(reader) {
+            Ok(restored) if restored == *value => "equal",
+            Ok(_) => "differ",
+            Err(e) => e,
+        };
+        emit(
+            "Readback",
+            &format!(
+                "{},\"how\":\"value\",\"outcome\":{}",
+                item(id),
+                jstr(outcome)
+            ),
+        );
+    }
+
+    /// Read back what was just persisted and compare re-serialized bytes.
+    ///
+    /// Differing bytes are only meaningful for types whose serialization is deterministic.
+    pub(super) fn readback_bytes<I: Identifier, T: Persistable>(
+        id: &I,
+        value: &T,
+        reader: Option<Box<dyn Read>>,
+    ) {
+        if !enabled() {
+            return;
+        }
+        let outcome = match restore::<T>(reader) {
+            Ok(restored) => {
+                let mut a = Vec::new();
+                let mut b = Vec::new();
+                value.write(&mut a);
+                restored.write(&mut b);
+                if a == b { "equal" } else { "differ" }
+            }
+            Err(e) => e,
+        };
+        emit(
+            "Readback",
+            &format!(
+                "{},\"how\":\"bytes\",\"outcome\":{}",
+                item(id),
+                jstr(outcome)
+            ),
+        );
     }
 }
 
